@@ -401,7 +401,9 @@ static void sfx_check(const uint8_t *pre, size_t plen, const ab_arc *a, int kind
 static void space_sfx(void)
 {
 	static uint8_t pre[300000];
-	static const char *frags[] = { "-l", "-lh5", "lh5-", "-p", "LHA-SF", "LHA-SFY", "LhASFX V1.2", "-lh", "-pm", "lz5-", "SFX", "-lz", "-lhX", "-l-5-" };
+	static const char *frags[] = { "-l", "-lh5", "lh5-", "-p", "LHA-SF", "LHA-SFY", "LhASFX V1.2", "-lh", "-pm", "lz5-", "SFX", "-lz", "-lhX", "-l-5-",
+	                               /* complete five-byte forms that differ from a signature in the case of a letter or in one character */
+	                               "-LH5-", "-Lh0-", "-LHD-", "-LZ5-", "-LZS-", "-PM2-", "-Pm0-", "-pM1-", "-xh5-", "-qm2-", "_lh5-", "-Lz4-" };
 	ab_arc *a;
 	obs_t base[K_COUNT];
 	size_t L;
@@ -626,6 +628,80 @@ static void space_extreme(void)
 	}
 }
 
+
+/* ------------------------------------------------------------------ members behind gigabytes of data (C16) */
+
+/* a virtual archive: [head: first header][gap: 'gap' filler bytes that are the first member's data][tail: further members] */
+typedef struct { const uint8_t *head; size_t headn; uint64_t gap; const uint8_t *tail; size_t tailn; uint64_t pos; unsigned long calls; } virt_t;
+
+static int virt_read(void *h, void *buf, size_t len)
+{
+	virt_t *v = (virt_t *) h;
+	uint64_t total = v->headn + v->gap + v->tailn, left = total - v->pos;
+	size_t k = left < len ? (size_t) left : len, i;
+	++v->calls;
+	for (i = 0; i < k; ++i) {
+		uint64_t p = v->pos + i;
+		((uint8_t *) buf)[i] = p < v->headn ? v->head[p] : p < v->headn + v->gap ? 0x55 : v->tail[p - v->headn - v->gap];
+	}
+	v->pos += k;
+	return (int) k;
+}
+
+static int virt_skip(void *h, size_t bytes)
+{
+	virt_t *v = (virt_t *) h;
+	uint64_t total = v->headn + v->gap + v->tailn;
+	if (bytes > total - v->pos) { v->pos = total; return 0; }
+	v->pos += bytes;
+	return 1;
+}
+
+static const LHAInputStreamType VIRT_NOSKIP = { virt_read, NULL, NULL }, VIRT_SKIP = { virt_read, virt_skip, NULL };
+
+static void space_huge(void)
+{
+	static const uint64_t gaps[] = { 0x7FFFFFF0ull, 0x7FFFFFFFull, 0x80000000ull, 0x80000005ull, 0xFFFFFFFFull, 70000 };
+	static uint8_t head[256], tail[4096];
+	unsigned gi;
+	int withskip;
+	for (gi = 0; gi < sizeof gaps / sizeof *gaps; ++gi)
+	for (withskip = 0; withskip < 2; ++withskip) {
+		ref_hdr f;
+		virt_t v;
+		size_t tn = 0;
+		LHAInputStream *st;
+		LHAReader *rd;
+		LHAFileHeader *h;
+		int members = 0, k;
+		char names[8][32];
+		if (gaps[gi] > 0x90000000ull && !VF.thorough && !withskip) continue;      /* 4 GiB through 32-byte reads: thorough tier */
+		if (!vf_case("first member with %llu bytes of data, two members behind it, callbacks %s a skip function", (unsigned long long) gaps[gi], withskip ? "with" : "without")) continue;
+		memset(&f, 0, sizeof f);
+		f.level = 2; memcpy(f.method, "-lh0-", 5); f.name = f.area = (const uint8_t *) ""; f.os = 'U'; f.time_raw = 1262304000u;
+		f.ext[0].type = 1; f.ext[0].data = (const uint8_t *) "big.bin"; f.ext[0].len = 7; f.next = 1;
+		f.packed = f.size = (uint32_t) gaps[gi];
+		memset(&v, 0, sizeof v);
+		v.headn = ref_hdr_encode(&f, head, sizeof head); v.head = head; v.gap = gaps[gi];
+		for (k = 0; k < 2; ++k) {
+			f.ext[0].data = (const uint8_t *) (k ? "third.txt" : "second.txt"); f.ext[0].len = k ? 9 : 10;
+			f.packed = f.size = 5; f.crc = ref_crc16(0, (const uint8_t *) "hello", 5);
+			tn += ref_hdr_encode(&f, tail + tn, sizeof tail - tn);
+			memcpy(tail + tn, "hello", 5); tn += 5;
+		}
+		v.tail = tail; v.tailn = tn;
+		st = lha_input_stream_new(withskip ? &VIRT_SKIP : &VIRT_NOSKIP, &v);
+		rd = lha_reader_new(st);
+		while ((h = lha_reader_next_file(rd)) != NULL && members < 8) { snprintf(names[members], sizeof names[0], "%s", h->filename ? h->filename : "?"); ++members; }
+		vf_step(vf_mix((uint64_t) members, v.calls));
+		if (members != 3 || strcmp(names[0], "big.bin") || strcmp(names[1], "second.txt") || strcmp(names[2], "third.txt"))
+			vf_viol("c16-member-lost", "%d members returned (%s%s%s), the archive holds big.bin, second.txt, third.txt", members, members > 0 ? names[0] : "", members > 1 ? ", " : "", members > 1 ? names[1] : "");
+		lha_reader_free(rd);
+		lha_input_stream_free(st);
+		vf_outcome(vf_mix((uint64_t) members, gi));
+		vf_nontrivial(vf_mix(gaps[gi], (uint64_t) withskip) + 1);
+	}
+}
 
 /* ------------------------------------------------------------------ work proportional to the bytes present (C13) */
 
@@ -1030,6 +1106,7 @@ int main(int argc, char **argv)
 	else if (!strcmp(VF.space, "extreme")) space_extreme();
 	else if (!strcmp(VF.space, "verdict")) space_verdict();
 	else if (!strcmp(VF.space, "work")) space_work();
+	else if (!strcmp(VF.space, "huge")) space_huge();
 	else if (!strcmp(VF.space, "mutate")) space_mutate();
 	else { fprintf(stderr, "unknown space %s\n", VF.space); return 2; }
 	vf_done();
